@@ -172,6 +172,10 @@ CORPUS_DRV = [
     ("cancel_inverses", {"recursive": True}, 2, [[11, False, [0], 0], [11, True, [0], 0], [12, True, [1], 0], [12, False, [1], 0], [16, False, [0], UNIT], [16, True, [0], UNIT], [16, False, [0], UNIT], [16, True, [0], 2 * UNIT]]),
     ("cancel_inverses", {"recursive": True}, 2, [[24, False, [0, 1], UNIT], [24, True, [1, 0], UNIT], [20, False, [0, 1], UNIT], [20, True, [1, 0], UNIT]]),
     ("cancel_inverses", {"recursive": True}, 2, [[11, True, [0], 0], [11, True, [0], 0], [0, True, [1], 0], [0, False, [1], 0], [0, True, [0], 0], [0, True, [0], 0]]),
+    ("cancel_inverses", {"recursive": True}, 3, [[28, False, [0, 1], UNIT], [28, True, [0, 1, 2], UNIT]]),      # raises (zip strict)
+    ("cancel_inverses", {"recursive": True}, 3, [[28, False, [0, 1], UNIT], [28, True, [1, 0, 2], UNIT]]),      # cancels (wrongly)
+    ("cancel_inverses", {"recursive": True}, 3, [[28, False, [1, 0, 2], UNIT], [28, True, [0, 1], UNIT]]),
+    ("cancel_inverses", {"recursive": False}, 3, [[28, True, [0, 1, 2], UNIT], [28, False, [0, 1, 2], UNIT], [28, True, [0, 1, 2], UNIT], [28, False, [2, 1, 0], UNIT]]),
     ("merge_rotations", {"atol": 1e-8, "include": None}, 2, [[16, False, [0], UNIT], [16, False, [0], -UNIT], [17, False, [1], UNIT], [17, False, [1], UNIT], [17, False, [1], 3]]),
     ("merge_rotations", {"atol": 1e-8, "include": None}, 2, [[16, False, [0], 0], [0, False, [0], 0], [18, False, [1], 0], [18, False, [0], 0]]),
     ("merge_rotations", {"atol": 1e-8, "include": None}, 2, [[20, False, [0, 1], UNIT], [20, False, [1, 0], UNIT], [24, False, [0, 1], UNIT], [24, False, [1, 0], UNIT], [24, False, [1, 0], 5]]),
@@ -312,7 +316,7 @@ def partner(rng, g, labels):
     return cls(*base.data, wires=ws)
 
 
-def rand_circuit(rng, labels, length=None, pair_p=0.4, **kw):
+def rand_circuit(rng, labels, length=None, pair_p=0.4, spect=("Hadamard", "T", "PauliX", "RZ"), **kw):
     ops = []
     L = rng.randint(1, 4 + 2 * len(labels)) if length is None else length
     while len(ops) < L:
@@ -326,7 +330,7 @@ def rand_circuit(rng, labels, length=None, pair_p=0.4, **kw):
             if rng.random() < 0.3:
                 free = [w for w in labels if w not in g.wires]
                 if free:
-                    ops.append(mk(rng.choice(["Hadamard", "T", "PauliX", "RZ"]), [rng.choice(free)], rng))
+                    ops.append(mk(rng.choice(list(spect)), [rng.choice(free)], rng))
             ops.append(h)
     return ops
 
@@ -580,7 +584,8 @@ def case_compile(rng):
         names = [rng.choice(sorted(avail)) for _ in range(rng.randint(1, 4))]
     basis = rng.choice([None, None, ["CNOT", "RX", "RY", "RZ"], ["CNOT", "RX", "RY", "RZ", "GlobalPhase"], ["CNOT", "Rot", "PhaseShift", "RZ", "RY", "RX"]])
     npass = rng.choice([1, 1, 2, 3])
-    ex = [(0.03, lambda: qp.Barrier(wires=rng.sample(labels, 1))), (0.03, lambda: qp.GlobalPhase(pyth_angle(rng)))]
+    # (a single-wire Barrier makes single_qubit_fusion raise: known finding pinned by the corpus, avoided here)
+    ex = [(0.03, lambda: qp.Barrier(wires=rng.sample(labels, 2)) if len(labels) >= 2 else qp.Identity(labels[0])), (0.03, lambda: qp.GlobalPhase(pyth_angle(rng)))]
     ops = rand_circuit(rng, labels, pair_p=0.45, extra=ex)
     kw = {"basis_set": basis, "num_passes": npass}
     if names is not None:
@@ -592,7 +597,7 @@ def case_zx(which):
     def f(rng):
         labels = lab(rng, rng.choice([1, 2, 2, 3]), allow_str=False)
         p1 = ["Hadamard", "T", "S", "PauliX", "PauliZ", "T", "T"] + (["RZ"] if which in ("reduce_non_clifford",) else [])
-        ops = rand_circuit(rng, labels, pair_p=0.25, pool1=p1, pool2=["CNOT", "CNOT", "CZ"], pool3=[])
+        ops = rand_circuit(rng, labels, pair_p=0.25, pool1=p1, pool2=["CNOT", "CNOT", "CZ"], pool3=[], spect=("Hadamard", "T", "PauliX"))
         # the ZX passes return wires 0..k-1 in order of first use (known finding, pinned by the corpus); relabel the random
         # circuits so that this order coincides with the labels and everything else about the passes is still tested
         order = []
@@ -632,6 +637,8 @@ PASSES = [
 CORPUS_DIFF = [
     ("cancel_inverses", [0, 1, 2], lambda: [qp.MultiRZ(0.5, wires=[0, 1]), qp.adjoint(qp.MultiRZ(0.5, wires=[0, 1, 2]))],
      {"recursive": True, "corpus": "variable-arity-adjoint"}, lambda t: T.cancel_inverses(t)),
+    ("cancel_inverses", [0, 1, 2], lambda: [qp.MultiRZ(0.5, wires=[0, 1]), qp.adjoint(qp.MultiRZ(0.5, wires=[1, 0, 2]))],
+     {"recursive": True, "corpus": "arity-mismatch-cancels"}, lambda t: T.cancel_inverses(t)),
     ("cancel_inverses", [0, 1, 2], lambda: [qp.Toffoli([0, 1, 2]), qp.Toffoli([1, 0, 2]), qp.CCZ([0, 1, 2]), qp.CCZ([2, 0, 1]), qp.Toffoli([0, 2, 1]), qp.Toffoli([0, 1, 2])],
      {"recursive": True, "corpus": "toffoli-orders"}, lambda t: T.cancel_inverses(t)),
     ("cancel_inverses", [0, 1], lambda: [qp.CNOT([0, 1]), qp.CNOT([1, 0]), qp.CY([0, 1]), qp.CY([1, 0]), qp.CH([0, 1]), qp.CH([1, 0])],
@@ -642,6 +649,7 @@ CORPUS_DIFF = [
     ("zx.optimize_t_count", [0, 1], lambda: [qp.Hadamard(1), qp.T(0)], {"corpus": "zx-wire-order"}, lambda t: qp.transforms.zx.optimize_t_count(t)),
     ("zx.reduce_non_clifford", [0, 1], lambda: [qp.Hadamard(1), qp.T(0)], {"corpus": "zx-wire-order"}, lambda t: qp.transforms.zx.reduce_non_clifford(t)),
     ("zx.todd", [0, 1], lambda: [qp.Hadamard(1), qp.T(0)], {"corpus": "zx-wire-order"}, lambda t: qp.transforms.zx.todd(t)),
+    ("single_qubit_fusion", [0], lambda: [qp.SX(0), qp.Barrier(wires=[0])], {"atol": 1e-8, "exclude": None, "corpus": "fusion-single-wire-barrier"}, lambda t: T.single_qubit_fusion(t)),
     ("commute_controlled", [0, 1, 2], lambda: [qp.PauliX(1), qp.CNOT([0, 1]), qp.PauliZ(1), qp.CNOT([1, 2]), qp.S(0), qp.CZ([0, 2]), qp.RX(math.pi / 2, 2), qp.Toffoli([0, 1, 2])],
      {"direction": "right", "corpus": "x-z-through-cnot"}, lambda t: T.commute_controlled(t)),
 ]
